@@ -81,6 +81,21 @@ func orderCase(c *h.Case) {
 	rmPerturb, trace := h.Perturb(rng, pfx)
 	defer rmPerturb()
 
+	if typ == "xtcp" {
+		// widen the window between the admission check and the hand-over of the sid: a request parked here may
+		// see the name change hands (next generation: other key, other list, other owner)
+		var pmu sync.Mutex
+		prng := run.RandFor("order-park", c.Idx)
+		rmPark := h.OnHook("nathole.visitor.afterLookup", name, func(string, []any) {
+			pmu.Lock()
+			x, d := prng.Intn(100), 5+prng.Intn(45)
+			pmu.Unlock()
+			if x < 30 {
+				time.Sleep(time.Duration(d) * time.Millisecond)
+			}
+		})
+		defer rmPark()
+	}
 	ol := newOwnerLog()
 	ol.types[name] = slotWire{Type: typ, Enc: enc, Comp: comp}
 
